@@ -1286,7 +1286,7 @@ impl<'a> Query<'a> {
         let mut constraint_attributes = Vec::new();
         match querystring.split(QUERYSPLITCHARS).next() {
             Some("WHERE") => querystring = querystring["WHERE".len()..].trim_start(),
-            Some("{") | Some("") | None => {} //no-op (select all, end of query, no where clause)
+            Some("{") | Some("}") | Some("|") | Some("") | None => {} //no-op (select all, end of query or of a subquery, no where clause)
             _ => {
                 return Err(StamError::QuerySyntaxError(
                     format!(
@@ -1806,6 +1806,10 @@ impl<'a> Query<'a> {
                 }
                 s.push(' ');
                 s += &subquery.to_string()?;
+            }
+            if !s.ends_with('\n') {
+                //a subquery without constraints ends in its name, which must not run into the brace
+                s.push('\n');
             }
             s += "}";
         }
